@@ -6,6 +6,21 @@ VERIF = os.path.dirname(os.path.abspath(__file__))
 
 # id -> (level, technique, text, note, design section)
 CHECKS = {
+    "C01": ("exploration",
+            "runtime monitoring: real Table/routes/destinations driven with generated tables and lines, reference pipeline model, capture routes + per-destination/table/aggregation counter deltas behind Flush/FIFO-sentinel barriers, sequential per-line attribution and 8-way concurrent multisets, under -race",
+            "Generated tables (0-4 blacklist entries, 0-3 rewriters, 0-3 never-flushing aggregations some drop-raw, 1-6 routes of capture/sendAllMatch/sendFirstMatch/consistentHashing with 1-4 refusing destinations, all six filter options over a six-letter alphabet) receive generated lines; for every line the routes and destinations that were handed it and the in/invalid/blacklist/unroutable and aggregation-input counter movements are compared with a model written from the property and docs, per line sequentially and as multisets after 8-way concurrent dispatch. Held on N tables x lines, not a proof.",
+            "A refusing destination with spool=false counts each hand-off once in conn_down_no_spool and Table.Flush() orders that count; which consistent-hashing destination takes a line is left to C15; filters and names stay within a small alphabet; tables are reused after being emptied via Del*.",
+            "DESIGN.md §4 C01"),
+    "C02": ("exploration",
+            "runtime monitoring: differential against carbon20.ValidatePacket with harness-derived levels plus a doc-derived validator, per-line counter and capture deltas, bad-metrics report checked last-record-per-name with bounded retries",
+            "For all 3x2 level combinations written in TOML (plus omitted options, which must mean medium/medium), grammar-generated and byte-mutated lines are dispatched one at a time: forwarded iff valid, direction=in +1, type=invalid +1 iff rejected, match-all aggregation input count equals the valid lines, and every rejected name shows its last rejected text with a non-empty reason in Table.Bad().Get(1h).",
+            "The go-metrics20 dependency is trusted as the validity reference; the doc oracle decides only on classes it marks confident, its other disagreements are informational; unparseable lines are expected under the empty name.",
+            "DESIGN.md §4 C02"),
+    "C03": ("exploration",
+            "differential runtime monitoring against a stdlib-regexp reference conjunction; generated regexes and names; observation through counters, capture routes and forced aggregator ticks",
+            "Generated (filter, name) pairs are run through the real code at six consultation points - matcher.Match and the PreMatch+MatchRegexAndExpand pair, table blacklist, route filters of all three carbon types incl. after modRoute, destination filters incl. after modDest, aggregations with cache on/off, dropRaw on/off, repeated lookups and forced cache expiry, and routing of aggregation output - and every observed decision must equal HasPrefix and not HasPrefix(notPrefix) and Contains and not Contains(notSub) and re.Match and not notRe.Match evaluated on the name, with value and timestamp tokens that contain filter material. Regexes cover optional, starred, counted and lazy atoms, alternation, escapes, classes, anchors and flags.",
+            "Trusts Go's regexp as the RE2 reference and the conn_down_no_spool counter as an exact hand-off count; command-built filters exclude values the command language cannot express.",
+            "DESIGN.md §4 C03"),
     "C04": ("exploration",
             "runtime monitoring: reference rewriter model compared at four consumers (capture routes, real destination endpoint, mocked aggregations) + input-buffer poisoning + retained-slice re-comparison, under -race (scoped reports)",
             "For generated tables (validation levels x 0-4 rewriters: literal / regex / not-clause / max, added by TOML or init command) and valid lines in every whitespace layout and numeric spelling, the bytes held by two capture routes, a real destination's endpoint and two mocked aggregations must equal oracleRewrite(name)+' '+value+' '+ts with the tokens byte-for-byte as received; Table.Dispatch must leave the caller's buffer untouched; every retained slice must be unchanged at the end; overwriting the input buffer with 0xAA right after Dispatch, or letting the real Plain scanner recycle it over TCP while consumers still hold the line, must change nothing; race reports touching the dispatch/rewrite/input path count.",
